@@ -470,6 +470,31 @@ theorem unet_full_shape (L n cin cout F : Nat) (s : Shape) (hL : 1 ≤ L) (h : U
   have := fullRun_ok (n := n) (unet_shape_id L s [] [] h) hc (by rw [emits_unet, cemits_unetC])
   rwa [emits_unet] at this
 
+/-- **MultiDomainUnet2d, full shape**: `MultiDomainUnet2d(fwd, bwd, cin, cout, num_filters = F, num_pool_layers = L)` with an
+even `F` maps `(N, cin, *s)` to `(N, cout, *s)` for all widths and depths: every `MultiDomainConv2d(a, b)` runs two
+convolutions with `b // 2` filters (k-space branch and image branch, both on the block's input) and concatenates them; the
+skip connections, the transposed multi-domain convolutions and the final 1×1 convolution are as in the U-Net -/
+theorem mdunet_full_shape (L n cin cout F : Nat) (s : Shape) (hL : 1 ≤ L) (hF : F % 2 = 0) (h : UAdm L s) :
+    ∃ t, fullRun (unet UnetP.std L) (mdUnetC cin cout F L) n cin s = .ok ⟨n :: cout :: s, t⟩ ∧ t.length = 3 * L + 1 ∧
+      ∀ x ∈ t, x.head? = some n := by
+  have hc := mdUnetC_ok L cin cout F [] hF
+  have := fullRun_ok (n := n) (unet_shape_id L s [] [] h) hc (by rw [emits_unet, cemits_mdUnetC]; omega)
+  rwa [emits_unet] at this
+
+/-- the channel contract alone, for any register file and any trace -/
+theorem mdunet_channels (L cin cout F : Nat) (hF : F % 2 = 0) (regs : List Nat) (tr : List Nat) :
+    ∃ tr', runC (mdUnetC cin cout F L) ⟨cin, regs, tr⟩ = .ok ⟨cout, regs, tr'⟩ :=
+  mdUnetC_ok L cin cout F regs hF tr
+
+/-- `out_channels // 2` twice: an odd `num_filters` loses a channel in the first multi-domain convolution and the second
+one (built for `num_filters` input channels) rejects its input -/
+theorem mdunet_odd_filters_fail : ∀ F ∈ [1, 3, 5, 7], ∀ L ∈ [0, 1, 2, 3],
+    runC (mdUnetC 2 2 F L) ⟨2, [], []⟩ = .error .runtime := by decide
+
+example : (fullRun (unet UnetP.std 2) (mdUnetC 2 3 4 2) 2 2 [9, 6]).toOption.map (·.final) = some [2, 3, 9, 6] := by decide
+example : (fullRun (unet UnetP.std 1) (mdUnetC 4 2 6 1) 3 4 [5, 6]).toOption.map (·.trace) =
+    some [[3, 6, 5, 6], [3, 12, 2, 3], [3, 6, 4, 6], [3, 2, 5, 6]] := by decide
+
 /-- the channel contract alone, for any register file (the program is used as a sub-program of the unrolled networks) -/
 theorem unet_channels (L cin cout F : Nat) (hL : 1 ≤ L) (regs : List Nat) (tr : List Nat) :
     ∃ tr', runC (unetC cin cout F L) ⟨cin, regs, tr⟩ = .ok ⟨cout, regs, tr'⟩ := by
